@@ -110,7 +110,8 @@ def run(ctx):
                 if isinstance(v, ast.Call) and isinstance(v.func, ast.Attribute) and v.func.attr == "sum":
                     ax = kwarg(v, "axis") or (v.args[0] if v.args else None)
                     axd = env.resolve(ax) if ax is not None else None
-                    got[t] = (U(v.func.value), isinstance(axd, TupleItem) and axd.index == 1 and isinstance(axd.value, ast.Call)
+                    plain = len(v.args) + len(v.keywords) == 1
+                    got[t] = (U(v.func.value) if plain else U(v), isinstance(axd, TupleItem) and axd.index == 1 and isinstance(axd.value, ast.Call)
                               and U(axd.value.func) == "self._get_projection_axes", U(ax) if ax is not None else None)
             env.step(step)
         ret = path[-1][2].value
@@ -182,25 +183,39 @@ def run(ctx):
     if T is None:
         raise AnalysisError("Histogram2D.T not found")
     ctx.saw(T)
-    v = None
-    done = set()
-    for st in ast.walk(T.node):
-        if isinstance(st, ast.Assign):
-            tt, vv = U(st.targets[0]), U(st.value)
-            if vv == "self.copy()":
-                v = tt
-            if v:
-                if tt == f"{v}._binnings" and vv in (f"list(reversed({v}._binnings))", f"{v}._binnings[::-1]"):
-                    done.add("binnings")
-                if tt == f"{v}.axis_names" and vv in (f"tuple(reversed({v}.axis_names))", f"{v}.axis_names[::-1]"):
-                    done.add("names")
-                if tt == f"{v}._frequencies" and vv == f"{v}._frequencies.T":
-                    done.add("frequencies")
-                if tt == f"{v}._errors2" and vv == f"{v}._errors2.T":
-                    done.add("errors2")
-    rets = [U(n.value) for n in ast.walk(T.node) if isinstance(n, ast.Return)]
-    ctx.check(done == {"binnings", "names", "frequencies", "errors2"} and rets == [v], "C09.c", "Histogram2D.T",
-              "copy; reverse binnings and names; transpose frequencies and errors2", f"T permutes only {sorted(done)} (all four per-axis parts must be swapped on the copy)", T.where)
+    npaths = 0
+    probs = []
+    for path in function_paths(T.node):
+        if end_kind(path) != "return":
+            continue
+        npaths += 1
+        v = None
+        done = set()
+        for step in path:
+            if step[0] == "stmt" and isinstance(step[1], ast.Assign):
+                tt, vv = U(step[1].targets[0]), U(step[1].value)
+                if vv == "self.copy()":
+                    v = tt
+                if v:
+                    if tt == f"{v}._binnings" and vv in (f"list(reversed({v}._binnings))", f"{v}._binnings[::-1]"):
+                        done.add("binnings")
+                    if tt == f"{v}.axis_names" and vv in (f"tuple(reversed({v}.axis_names))", f"{v}.axis_names[::-1]"):
+                        done.add("names")
+                    if tt == f"{v}._frequencies" and vv == f"{v}._frequencies.T":
+                        done.add("frequencies")
+                    if tt == f"{v}._errors2" and vv == f"{v}._errors2.T":
+                        done.add("errors2")
+        missing = {"binnings", "names", "frequencies", "errors2"} - done
+        none_guard = any(s_[0] == "cond" and not s_[2] and U(s_[1]).endswith("errors2 is not None") for s_ in path)
+        if missing == {"errors2"} and none_guard:
+            missing = set()
+        if missing:
+            conds = [f"{U(s_[1])}={s_[2]}" for s_ in path if s_[0] == "cond"]
+            probs.append(f"on the path [{'; '.join(conds)}] T does not swap {sorted(missing)}")
+        if U(path[-1][2].value) != v:
+            probs.append("T does not return the permuted copy")
+    ctx.check(npaths > 0 and not probs, "C09.c", "Histogram2D.T",
+              "on every path: copy; reverse binnings and names; transpose frequencies and errors2", " ; ".join(sorted(set(probs))[:2]), T.where)
 
     ctx.rule("C09.d", "accumulate = cumsum of the copy's frequencies along exactly the resolved axis", 1)
     ac = HN.methods.get("accumulate")
@@ -222,6 +237,10 @@ def run(ctx):
             env.step(step)
     ctx.check(okacc, "C09.d", "HistogramND.accumulate", "copy; frequencies = cumsum(copy.frequencies, self._get_axis(axis))",
               "accumulate is not a cumsum of a copy along the resolved axis", ac.where)
+
+    from rules import wiring
+    wiring.axis_resolved(ctx, "C09.d", ac)
+    wiring.axis_resolved(ctx, "C09.d", HN.methods["select"])
 
     ctx.rule("C09.e", "projection class maps of the transformed classes are well typed", 8)
     check_class_maps(ctx, "C09.e", m)
